@@ -326,8 +326,21 @@ class Tn:
 
 # ------------------------------------------------------------------ slicing helpers
 
-def norm_slice(lo, hi, L):
-    """Python/torch slice normalisation for step 1: returns (lo', length)."""
+def norm_slice(lo, hi, L, ctx=None):
+    """Python/torch slice normalisation for step 1: returns (lo', length).  With a path context the
+    clamping cases that the path condition already excludes are dropped (same value, smaller term)."""
+    ent = getattr(ctx, 'entails', None)
+    if ent is not None and O.any_sym(lo, hi, L):
+        try:
+            lo_ok = lo is None or bool(ent(And(0 <= lo, lo <= L)))
+            hi_ok = hi is None or bool(ent(And(0 <= hi, hi <= L)))
+            if lo_ok and hi_ok:
+                lo_n = 0 if lo is None else lo
+                hi_n = L if hi is None else hi
+                if bool(ent(lo_n <= hi_n)):
+                    return O.simp(lo_n), O.simp(hi_n - lo_n)
+        except Exception:
+            pass
     if lo is None:
         lo_n = 0
     else:
@@ -377,7 +390,7 @@ def basic_index(t, key, ctx=None, wrap=True, site=None):
         if isinstance(k, slice):
             step = k.step
             if step is None or (O.is_conc(step) and O.conc_int(step) == 1):
-                lo, ln = norm_slice(k.start, k.stop, L)
+                lo, ln = norm_slice(k.start, k.stop, L, ctx)
                 f[od] = ('aff', len(new_shape), lo, 1)
                 new_shape.append(ln)
             else:
